@@ -38,6 +38,19 @@ CLAIMED["C11"] = (
     "Trusts TLC/Json, the driver conversion (the same projection on both sides of a round trip), child-process isolation for aborts; the garbage half is an outcome-alphabet check only.",
     "DESIGN.md section 5, C11")
 
+CLAIMED["C03"] = (
+    "TLC model check of the selector machine (MC_Selector: every admissible window and pick over small stores; deviation TakeWithUnionFallback shown unsound) + TLC-enumerated stores x query shapes replayed on tx3_resolver::inputs::resolve through a recording UtxoStore + TLC trace validation (Trace_Selector) incl. random stores up to 130 UTxOs",
+    "TLC checks Sound/Complete/Disjoint on the model for every admissible selector and finds the counterexample for the code's former union fallback; every enumerated (store, query) and seeded random large stores are resolved by the real resolver "
+    "several times and TLC validates each recorded Fetch/Resolved/NotResolved/Error event against the selection contract (soundness of every bound set, completeness of every refusal, window within the candidates).",
+    "Trusts TLC/Json and the driver's in-memory recording store; bounds: <=3 UTxOs, 2 addresses, 3 classes exhaustively; random: <=130 UTxOs, amounts <= 2^62; completeness relative to the fetched window beyond 50 candidates, multi-ref queries soundness only.",
+    "DESIGN.md section 5, C03")
+CLAIMED["C04"] = (
+    "TLC model check of Disjoint/IgnoreMonotone on the selector machine (MC_Selector, overlapping blocks) + enumerated stores x overlapping block tuples replayed on inputs::resolve and resolve_tx (recording store and compiler, decoded body inputs) + TLC trace validation (Trace_Selector)",
+    "TLC checks pairwise disjointness and monotone ignore sets on the model; every enumerated case and seeded random multi-block cases run through the real resolver and end to end through resolve_tx, and TLC validates the recorded events: "
+    "no overlap between non-collateral blocks, windows exclude what earlier blocks took, decoded body inputs are duplicate-free and equal the union of the bound sets.",
+    "Trusts TLC/Json, the recording seams and the driver's CBOR reader; bounds: 2 (quick) / 3 (thorough) overlapping blocks over <=3 UTxOs exhaustively, 1..4 blocks over <=130 UTxOs randomly.",
+    "DESIGN.md section 5, C04")
+
 ALL = ["C%02d" % i for i in range(1, 21)]
 
 NOT_YET = "check not built yet in this revision of /verif (planned: see DESIGN.md section 5); not claimed until its machinery exists and is quiet on the unchanged tree"
